@@ -7,7 +7,10 @@ PID = "C11"
 GEN = []
 LEAN = ["Ymq.Props.C11"]
 AUDIT = "Ymq.Audit.C11"
-THEOREMS = []          # filled at the bottom of the file
+THEOREMS = ["Ymq.C11." + t for t in (
+    "verify_sound combine_valid combine_undivisible unpack_pack normFactors_prod unpack_pack_verify "
+    "pack_one_becomes_two add_inv history_inv cycles_valid try_factor_proper even_combination_square "
+    "kernel_step_proper verify_false_negative").split()]
 PROFILES = ["release", "chk"]
 TIMEOUT = 60.0
 RULE = ("synthetic histories for the real RelationSet: n = p1*p2 (16..31-bit primes known to the generator, square roots "
@@ -398,6 +401,15 @@ def single_op_cases(rng, count):
                 ops = [(r1, None), ((r2[0] ^ 1, r2[1], r2[2], r2[3]), None)]
             line = f"rs_history {n} {len(w.fb)} {w.maxlarge} " + ";".join(item(r, pq) for r, pq in ops)
             yield Case(line, o=False, profiles=["chk"], tag="contract/" + kind)
+
+
+def corpus_case(line):
+    """corpus lines may start with `@chk ` (checked profile only, no spec oracle: outside the contract) or `@k `"""
+    if line.startswith("@chk "):
+        return Case(line[5:], o=False, profiles=["chk"], tag="corpus/contract")
+    if line.startswith("@k "):          # model/code comparison only (documented edge of the domain)
+        return Case(line[3:], o=False, tag="corpus/edge")
+    return Case(line, tag="corpus")
 
 
 def cases(tier, rng, extended=False):
